@@ -11,30 +11,30 @@ import SqProps.C04
 namespace Sq.Inv
 
 /-- the invariant, and in addition: the type object `dict` does not occur as a value unless opaque objects are allowed -/
-inductive PDg (Pc : List Op → Op → Nat → Prop) (Pb : String → Prop) (Pq : String → Prop) : Val → Prop
-  | none : PDg Pc Pb Pq .none
-  | bool {x} : PDg Pc Pb Pq (.bool x)
-  | dec {d c} : PDg Pc Pb Pq (.dec d c)
-  | int {i} : PDg Pc Pb Pq (.int i)
-  | str {s} : PDg Pc Pb Pq (.str s)
-  | slice {x y z} : PDg Pc Pb Pq (.slice x y z)
-  | ref {a} : PDg Pc Pb Pq (.ref a)
-  | builtin {n} : Pb n → (n ≠ "dict" ∨ ∀ q, Pq q) → PDg Pc Pb Pq (.builtin n)
-  | closure {ps body vm} : Pc ps body vm → PDg Pc Pb Pq (.closure ps body vm)
-  | host {i} : PDg Pc Pb Pq (.host i)
-  | opaque {s} : Pq s → PDg Pc Pb Pq (.opaque s)
-  | tuple {vs} : (∀ v, v ∈ vs → PDg Pc Pb Pq v) → PDg Pc Pb Pq (.tuple vs)
+inductive PDg (Pc : List Op → Op → Nat → Prop) (Pb : String → Prop) (Pq : String → Prop) (Pr : Nat → Prop) : Val → Prop
+  | none : PDg Pc Pb Pq Pr .none
+  | bool {x} : PDg Pc Pb Pq Pr (.bool x)
+  | dec {d c} : PDg Pc Pb Pq Pr (.dec d c)
+  | int {i} : PDg Pc Pb Pq Pr (.int i)
+  | str {s} : PDg Pc Pb Pq Pr (.str s)
+  | slice {x y z} : PDg Pc Pb Pq Pr (.slice x y z)
+  | ref {a} : Pr a → PDg Pc Pb Pq Pr (.ref a)
+  | builtin {n} : Pb n → (n ≠ "dict" ∨ ∀ q, Pq q) → PDg Pc Pb Pq Pr (.builtin n)
+  | closure {ps body vm} : Pc ps body vm → PDg Pc Pb Pq Pr (.closure ps body vm)
+  | host {i} : PDg Pc Pb Pq Pr (.host i)
+  | opaque {s} : Pq s → PDg Pc Pb Pq Pr (.opaque s)
+  | tuple {vs} : (∀ v, v ∈ vs → PDg Pc Pb Pq Pr v) → PDg Pc Pb Pq Pr (.tuple vs)
 
-variable {Pc : List Op → Op → Nat → Prop} {Pb : String → Prop} {Pq : String → Prop}
+variable {Pc : List Op → Op → Nat → Prop} {Pb : String → Prop} {Pq : String → Prop} {Pr : Nat → Prop}
 variable {Po : Op → Prop} {Pn : Name → Prop} {Psh : Prop}
-local notation "NP" => NPg Pc Pb Pq
-local notation "ObjNP" => ObjNPg Pc Pb Pq
-local notation "HeapNP" => HeapNPg Pc Pb Pq
-local notation "AllNP" => AllNPg Pc Pb Pq
-local notation "RxNP" => RxNPg Pc Pb Pq
-local notation "StNP" => StNPg Pc Pb Pq
-local notation "PresNP" => PresNPg Pc Pb Pq
-local notation "PD" => PDg Pc Pb Pq
+local notation "NP" => NPg Pc Pb Pq Pr
+local notation "ObjNP" => ObjNPg Pc Pb Pq Pr
+local notation "HeapNP" => HeapNPg Pc Pb Pq Pr
+local notation "AllNP" => AllNPg Pc Pb Pq Pr
+local notation "RxNP" => RxNPg Pc Pb Pq Pr
+local notation "StNP" => StNPg Pc Pb Pq Pr
+local notation "PresNP" => PresNPg Pc Pb Pq Pr
+local notation "PD" => PDg Pc Pb Pq Pr
 
 theorem PDg.np : ∀ {v : Val}, PD v → NP v
   | _, .none => .none
@@ -43,7 +43,7 @@ theorem PDg.np : ∀ {v : Val}, PD v → NP v
   | _, .int => .int
   | _, .str => .str
   | _, .slice => .slice
-  | _, .ref => .ref
+  | _, .ref h => .ref h
   | _, .builtin hb _ => .builtin hb
   | _, .closure hc => .closure hc
   | _, .host => .host
@@ -58,7 +58,7 @@ theorem np_pd (hq : ∀ q, Pq q) : ∀ {v : Val}, NP v → PD v
   | _, .int => .int
   | _, .str => .str
   | _, .slice => .slice
-  | _, .ref => .ref
+  | _, .ref h => .ref h
   | _, .builtin hb => .builtin hb (Or.inr hq)
   | _, .closure hc => .closure hc
   | _, .host => .host
@@ -70,26 +70,27 @@ theorem PDg.not_dict {v : Val} (h : PD v) : v ≠ .builtin "dict" ∨ ∀ q, Pq 
   · subst e; cases h with | builtin _ hn => exact hn.imp (fun hn => absurd rfl hn) id
   · exact Or.inl e
 
-variable (Pc Pb Pq) in
+variable (Pc Pb Pq Pr) in
 def AllPDg (vs : List Val) : Prop := ∀ v, v ∈ vs → PD v
-local notation "AllPD" => AllPDg Pc Pb Pq
+local notation "AllPD" => AllPDg Pc Pb Pq Pr
 theorem AllPDg.np {vs : List Val} (h : AllPD vs) : AllNP vs := fun v hv => (h v hv).np
 theorem AllPDg.head_ne {vs : List Val} (h : AllPD vs) : vs.head? ≠ some (.builtin "dict") ∨ ∀ q, Pq q := by
   cases vs with
   | nil => simp
   | cons x r => simp; exact (h x (by simp)).not_dict
 
-variable (Pc Pb Pq) in
+variable (Pc Pb Pq Pr) in
 def ObjPDg : HObj → Prop
   | .list xs => AllPD xs
   | .dict kvs => ∀ kv, kv ∈ kvs → PD kv.1 ∧ PD kv.2
-local notation "ObjPD" => ObjPDg Pc Pb Pq
-variable (Pc Pb Pq) in
-def HeapPDg (h : Heap) : Prop := ∀ a o, h.get? a = some o → ObjPD o
-local notation "HeapPD" => HeapPDg Pc Pb Pq
+local notation "ObjPD" => ObjPDg Pc Pb Pq Pr
+variable (Pc Pb Pq Pr) in
+def HeapPDg (h : Heap) : Prop := (∀ a o, h.get? a = some o → ObjPD o) ∧ ∀ a, h.size ≤ a → Pr a
+local notation "HeapPD" => HeapPDg Pc Pb Pq Pr
 theorem HeapPDg.np {h : Heap} (hh : HeapPD h) : HeapNP h := by
+  refine ⟨?_, hh.2⟩
   intro a o hg
-  have := hh a o hg
+  have := hh.1 a o hg
   cases o with
   | list xs => exact AllPDg.np this
   | dict kvs => exact fun kv hkv => ⟨(this kv hkv).1.np, (this kv hkv).2.np⟩
@@ -154,35 +155,35 @@ def RxP (P : Val → Prop) (rx : List RxAns) : Prop :=
     | .all items => ∀ v, v ∈ items → P v
     | _ => True
 
-variable (Pc Pb Pq) in
+variable (Pc Pb Pq Pr) in
 structure WorldNPg (w : World) : Prop where
   heap : HeapNP w.heap
   rx : RxNP w.rx
   probes : ProbesP NP w.probes
 
-variable (Pc Pb Pq) in
+variable (Pc Pb Pq Pr) in
 structure WorldPDg (w : World) : Prop where
   heap : HeapPD w.heap
   rx : RxP PD w.rx
   probes : ProbesP PD w.probes
 
-local notation "WorldNP" => WorldNPg Pc Pb Pq
-local notation "WorldPD" => WorldPDg Pc Pb Pq
+local notation "WorldNP" => WorldNPg Pc Pb Pq Pr
+local notation "WorldPD" => WorldPDg Pc Pb Pq Pr
 
-variable (Pc Pb Pq Po Pn Psh) in
+variable (Pc Pb Pq Pr Po Pn Psh) in
 structure CoreNPg (c : Core) : Prop where
   ctl : CtlP NP c.ctl
   frames : ∀ fr, fr ∈ c.k → FrameP NP fr
   world : WorldNP c.w
 
-variable (Pc Pb Pq Po Pn Psh) in
+variable (Pc Pb Pq Pr Po Pn Psh) in
 structure CorePDg (c : Core) : Prop where
   ctl : CtlP PD c.ctl
   frames : ∀ fr, fr ∈ c.k → FrameP PD fr
   world : WorldPD c.w
 
-local notation "CoreNP" => CoreNPg Pc Pb Pq Po Pn Psh
-local notation "CorePD" => CorePDg Pc Pb Pq Po Pn Psh
+local notation "CoreNP" => CoreNPg Pc Pb Pq Pr Po Pn Psh
+local notation "CorePD" => CorePDg Pc Pb Pq Pr Po Pn Psh
 
 theorem RxP_np {rx : List RxAns} (h : RxP PD rx) : RxNP rx := by
   intro a ha
@@ -324,9 +325,9 @@ theorem sortedBy_mem {h : Heap} {keys items : List Val} {rev : Bool} {r : List V
 
 /-! ### building plain configurations -/
 
-variable (Pc Pb Pq Po Pn Psh) in
+variable (Pc Pb Pq Pr Po Pn Psh) in
 abbrev FKg (k : List Frame) : Prop := ∀ fr, fr ∈ k → FrameP NP fr
-local notation "FK" => FKg Pc Pb Pq Po Pn Psh
+local notation "FK" => FKg Pc Pb Pq Pr Po Pn Psh
 
 theorem fk_cons {fr : Frame} {k : List Frame} (hf : FrameP NP fr) (hk : FK k) : FK (fr :: k) := by
   intro x hx
@@ -363,7 +364,7 @@ theorem ofBR_np {r : BR} {k : List Frame} {w : World} (hk : FK k) (hw : WorldNP 
   · exact core_raise hk hw
 
 theorem heap_listPD {h : Heap} (hh : HeapPD h) {a : Nat} {xs : List Val} (hg : h.get? a = some (.list xs)) : AllPD xs :=
-  hh a _ hg
+  hh.1 a _ hg
 
 theorem bindParams_np : ∀ (ps : List Op) (args : List Val) (acc out : List (Val × Val)),
     (∀ kv, kv ∈ acc → NP kv.1 ∧ NP kv.2) → AllNP args → bindParams ps args acc = some out →
@@ -390,7 +391,7 @@ theorem sortFinish_np {keys items : List Val} {rev dm : Bool} {k : List Frame} {
     have hsn : AllNP sorted := fun v hv => hi v (sortedBy_mem hs v hv)
     split
     · simp only [Heap.alloc]
-      refine core_ret .ref hk (world_heap hw (heapNP_push hw.heap (o := .dict _) ?_))
+      refine core_ret (.ref (heapNP_fresh hw.heap)) hk (world_heap hw (heapNP_push hw.heap (o := .dict _) ?_))
       intro kv hkv
       obtain ⟨v, hv, e⟩ := List.mem_filterMap.mp hkv
       have hvn := hsn v hv
@@ -400,13 +401,13 @@ theorem sortFinish_np {keys items : List Val} {rev dm : Bool} {k : List Frame} {
         cases hvn with | tuple hall => exact ⟨hall _ (by simp), hall _ (by simp)⟩
       · cases e
     · simp only [Heap.alloc]
-      exact core_ret .ref hk (world_heap hw (heapNP_push hw.heap (o := .list _) hsn))
+      exact core_ret (.ref (heapNP_fresh hw.heap)) hk (world_heap hw (heapNP_push hw.heap (o := .list _) hsn))
 
-variable (Pc Pb Pq Po Pn Psh) in
+variable (Pc Pb Pq Pr Po Pn Psh) in
 def IterOKg (it : IterFn) : Prop :=
   ∀ kind g src acc k w, KindP PD kind → PD g → SrcP PD src → AllPD acc → FK k → WorldPD w → CoreNP (it kind g src acc k w)
 
-local notation "IterOK" => IterOKg Pc Pb Pq Po Pn Psh
+local notation "IterOK" => IterOKg Pc Pb Pq Pr Po Pn Psh
 
 theorem callClosure_np (ps : List Op) (body : Op) (vmi : Nat) (args : List Val) (k : List Frame) (w : World)
     (hb : Po body) (ha : AllNP args) (hk : FK k) (hw : WorldNP w) : CoreNP (callClosure ps body vmi args k w) := by
@@ -439,11 +440,11 @@ theorem iterItems_pd {h : Heap} (hh : HeapPD h) {c : Val} (hc : PD c) {items : L
     rw [← e]; exact .str
   · cases hi; cases hc with | tuple hall => exact hall
   · split at hi
-    · rename_i hg; cases hi; exact hh _ _ hg
+    · rename_i hg; cases hi; exact hh.1 _ _ hg
     · rename_i hg; cases hi
       intro v hv
       obtain ⟨kv, hkv, e⟩ := List.mem_map.mp hv
-      rw [← e]; exact (hh _ _ hg kv hkv).1
+      rw [← e]; exact (hh.1 _ _ hg kv hkv).1
     · simp [U] at hi
   · simp [U] at hi
   · cases hi
@@ -468,8 +469,8 @@ theorem callMap_np (it : IterFn) (hit : IterOK it) (args : List Val) (k : List F
         rw [← e] at hv
         simp at hv
         rcases hv with e1 | e1 <;> rw [e1]
-        · exact (hw.heap _ _ hgk kv hkv).1
-        · exact (hw.heap _ _ hgk kv hkv).2
+        · exact (hw.heap.1 _ _ hgk kv hkv).1
+        · exact (hw.heap.1 _ _ hgk kv hkv).2
       · exact core_raise hk hw.np
     · exact core_raise hk hw.np
     · exact core_raise hk hw.np
@@ -483,8 +484,8 @@ theorem callFilter_np (it : IterFn) (hit : IterOK it) (args : List Val) (k : Lis
     · split
       · rename_i xs hg
         simp only [Heap.alloc]
-        exact core_ret .ref hk (world_heap hw.np (heapNP_push hw.np.heap (o := .list _)
-          (allNP_filter _ (AllPDg.np (hw.heap _ _ hg)))))
+        exact core_ret (.ref (heapNP_fresh hw.np.heap)) hk (world_heap hw.np (heapNP_push hw.np.heap (o := .list _)
+          (allNP_filter _ (AllPDg.np (hw.heap.1 _ _ hg)))))
       · exact core_raise hk hw.np
     · exact core_raise hk hw.np
     · exact core_raise hk hw.np
@@ -552,7 +553,7 @@ theorem callSorted_np (it : IterFn) (hit : IterOK it) (args : List Val) (k : Lis
                 intro v hv
                 obtain ⟨kv, hkv, e⟩ := List.mem_map.mp hv
                 rw [← e]
-                exact .tuple (allPD_cons (hw.heap _ _ hg kv hkv).1 (allPD_cons (hw.heap _ _ hg kv hkv).2 allPD_nil))
+                exact .tuple (allPD_cons (hw.heap.1 _ _ hg kv hkv).1 (allPD_cons (hw.heap.1 _ _ hg kv hkv).2 allPD_nil))
               · simp [U] at hitems
             · simp [U] at hitems
           · exact iterItems_pd hw.heap hc hitems
@@ -617,7 +618,7 @@ theorem nextItem_pd {h : Heap} (hh : HeapPD h) {src src' : IterSrc} {item : List
       · rename_i x hx
         injection hn with hn; injection hn with h1 h2
         subst h1; subst h2
-        exact ⟨allPD_cons (hh _ _ hg x (List.mem_of_getElem? hx)) allPD_nil, trivial⟩
+        exact ⟨allPD_cons (hh.1 _ _ hg x (List.mem_of_getElem? hx)) allPD_nil, trivial⟩
       · cases hn
     · cases hn
   · cases hn
@@ -693,9 +694,9 @@ theorem call_np (hok : OpsOK Pc Pb Po Pn Psh) : ∀ (fuel : Nat),
         | sortKeys a b c => exact hitem
       · split
         · simp only [Heap.alloc]
-          exact core_ret .ref hk (world_heap hw.np (heapNP_push hw.np.heap (o := .list _) (allNP_reverse hacc.np)))
+          exact core_ret (.ref (heapNP_fresh hw.np.heap)) hk (world_heap hw.np (heapNP_push hw.np.heap (o := .list _) (allNP_reverse hacc.np)))
         · simp only [Heap.alloc]
-          exact core_ret .ref hk (world_heap hw.np (heapNP_push hw.np.heap (o := .list _) (allNP_reverse hacc.np)))
+          exact core_ret (.ref (heapNP_fresh hw.np.heap)) hk (world_heap hw.np (heapNP_push hw.np.heap (o := .list _) (allNP_reverse hacc.np)))
         · refine core_ret ?_ hk hw.np
           cases acc with
           | nil => exact .none
@@ -728,7 +729,7 @@ theorem lookupName_np {h : Heap} (hh : HeapNP h) : ∀ (scopes : List Nat) (n : 
       · rename_i kvs hg
         cases hq : kvs.find? (fun kv => keyIsName kv.1 n) with
         | none => rw [hq] at hf; cases hf
-        | some p => rw [hq] at hf; simp at hf; subst hf; exact (hh _ _ hg p (List.mem_of_find?_eq_some hq)).2
+        | some p => rw [hq] at hf; simp at hf; subst hf; exact (hh.1 _ _ hg p (List.mem_of_find?_eq_some hq)).2
       · cases hf
     · exact ih n v hn hl
 
@@ -818,7 +819,7 @@ theorem writeTop_np {h h' : Heap} {scopes : List Nat} {n : Name} {v : Val} (hh :
   · split at hw
     · rename_i kvs hg
       cases hw
-      exact heapNP_set hh _ (o := .dict _) (kvSet_np (hh _ _ hg) n hv)
+      exact heapNP_set hh _ (o := .dict _) (kvSet_np (hh.1 _ _ hg) n hv)
     · cases hw
 
 theorem pyNeg_np {a v : Val} (h : pyNeg a = .ok v) : NP v := by
@@ -901,7 +902,7 @@ theorem enter_np (hok : OpsOK Pc Pb Po Pn Psh) (op : Op) (vmi : Nat) (k : List F
     exact core_ev (h.2 a (by simp)) (fk_cons (fr := .argsK n [] rest vmi)
       ⟨fun v hv => (by cases hv), h.1, fun o hx => h.2 o (by simp [hx])⟩ hk) hw.np
   · simp only [Heap.alloc]
-    exact core_ret .ref hk (world_heap hw.np (heapNP_push hw.np.heap (o := .dict []) (fun kv h => by cases h)))
+    exact core_ret (.ref (heapNP_fresh hw.np.heap)) hk (world_heap hw.np (heapNP_push hw.np.heap (o := .dict []) (fun kv h => by cases h)))
   · rename_i a rest
     have h := hok.dict _ ho
     exact core_ev (h a (by simp)) (fk_cons (fr := .dictK [] rest vmi)
@@ -1027,7 +1028,7 @@ theorem resume_np (hok : OpsOK Pc Pb Po Pn Psh) (fr : Frame) (v : Val) (k : List
       · exact core_raise hk hw.np
       · rename_i kvs hb
         simp only [Heap.alloc]
-        refine core_ret .ref hk (world_heap hw.np (heapNP_push hw.np.heap (o := .dict kvs) ?_))
+        refine core_ret (.ref (heapNP_fresh hw.np.heap)) hk (world_heap hw.np (heapNP_push hw.np.heap (o := .dict kvs) ?_))
         refine buildDict_np w.heap _ _ [] kvs (Nat.le_refl _) ?_ (fun kv h => by cases h) hb
         intro x hx
         rcases List.mem_cons.mp (List.mem_reverse.mp hx) with e | e
